@@ -22,7 +22,7 @@ let () =
   let hist_meta = ref "" in
   let step_no = ref 0 in
   let pre_lines = ref [] and cur_st = ref [] in
-  let cur_op = ref None and orc = ref [] and res = ref ("", "") and xs = ref [] and hs = ref [] and gen = ref "" and fault = ref false and qr = ref [] and indep = ref "" and qpage = ref "" and order = ref "" and minv = ref "" in
+  let cur_op = ref None and orc = ref [] and res = ref ("", "") and xs = ref [] and hs = ref [] and gen = ref "" and fault = ref false and qr = ref [] and indep = ref "" and qpage = ref "" and order = ref "" and minv = ref "" and hookchk = ref [] in
   let mismatches = ref 0 and checkfails = ref 0 in
   let report_mismatch proj m i =
     incr mismatches;
@@ -128,6 +128,11 @@ let () =
                   Printf.printf "CHECK hist=%s step=%d prop=C17 checker=hook_before_transfers op=[%s] detail=[BeforeSellingCoinsAllocated of auction %s was called after coins had already left its escrow: %s] %s\n" !hist !step_no op_line a !order !hist_meta
               | None -> ()
             end;
+            (* C17: a listener that reads the store while it is told that an auction is about to be created must not
+               find the auction there already (and must find it when told it has been created) *)
+            List.iter (fun l ->
+              incr checkfails;
+              Printf.printf "CHECK hist=%s step=%d prop=C17 checker=before_means_before op=[%s] detail=[a listener looked into the store during a creation hook: %s] %s\n" !hist !step_no op_line l !hist_meta) (List.rev !hookchk);
             (* C01: the module's own invariants, as reported by the Go functions on this state and as the model's
                transcription (Checkers.selling_pool_b ...) evaluates on the same state *)
             if !minv <> "" then begin
@@ -169,7 +174,7 @@ let () =
         end
       end
       else if starts_with "OP " l then begin
-        cur_op := Some l; orc := []; res := ("", ""); xs := []; hs := []; gen := ""; fault := false; qr := []; indep := ""; qpage := ""; order := ""; minv := ""
+        cur_op := Some l; orc := []; res := ("", ""); xs := []; hs := []; gen := ""; fault := false; qr := []; indep := ""; qpage := ""; order := ""; minv := ""; hookchk := []
       end
       else if starts_with "ORC " l then orc := parse_orc l :: !orc
       else if starts_with "RES " l then begin
@@ -186,6 +191,7 @@ let () =
       else if starts_with "QPAGE " l then qpage := l
       else if starts_with "ORDER " l then order := l
       else if starts_with "MINV " l then minv := l
+      else if starts_with "HOOKCHECK " l then hookchk := l :: !hookchk
       else if l = "END" then begin
         process ();
         if !cur_op <> None then incr step_no;
